@@ -25,6 +25,8 @@ def families(tier):
     yield from G.f6_scoping()
     yield from G.f7_comprehensions()
     yield from G.f9_functions()
+    yield from G.f7b_traced()
+    yield from G.f10_sizes()
 
 
 def programs(tier):
@@ -35,7 +37,7 @@ def programs(tier):
             if src is None:
                 continue
             for ctx, text in (("module", src), ("def", G.wrap_def(src))):
-                if fam in ("F5", "F6") and ctx == "def":
+                if fam in ("F5", "F6", "F7b") and ctx == "def" and fam != "F7b":
                     continue  # these families place their own defs
                 if text in seen:
                     continue
